@@ -100,6 +100,24 @@ def check_pair(c, fa, fb, aj, bj, res, case, size):
             got = {"a": got["a"], "b": got["b"]}
         if got != want:
             res.violate(f"c20.{name}", case, got, want, size=size)
+    # explicit start / end positions only shift the answer (0 is a legal value, not "use the default")
+    try:
+        for off in (0, 3):
+            g = fa.find_diff_start(fb, off)
+            w = None if exp_s is None else exp_s + off
+            if g != w:
+                res.violate("c20.find_diff_start.pos-argument", {**case, "pos": off}, g, w, size=size)
+        for pa, pb in ((0, 0), (fa.size + 2, fb.size + 5), (fa.size, 0)):
+            g = fa.find_diff_end(fb, pa, pb)
+            w = None if exp_e is None else {"a": exp_e["a"] - fa.size + pa, "b": exp_e["b"] - fb.size + pb}
+            if g is not None:
+                g = {"a": g["a"], "b": g["b"]}
+            if g != w:
+                res.violate("c20.find_diff_end.pos-argument", {**case, "pos": [pa, pb]}, g, w, size=size)
+    except engine.Watchdog:
+        raise
+    except Exception as e:  # noqa: BLE001
+        res.violate("c20.pos-argument.raises", case, common.exc_str(e), size=size)
 
 
 def check_docs(c, na, nb, aj, bj, res, case, size):
